@@ -255,7 +255,7 @@ variable (cfg : Cfg) (forest : List Node) (rd : Option Nat)
 theorem walkLoop_dir (stack : List Frame) (sp : List Nat) (dd : Dent) (info : DirView)
     (hdir : dd.dir = some info) (m : Nat) (ig : List Anc) (acc : List Out) :
     walkLoop cfg forest (m + 1) (mkIt cfg rd stack sp dd.depth (some (.ok dd))) ig acc =
-      if (decide (dd.depth ≠ 0) && skipEntry cfg ig dd.path (dd.path.getLast?.getD 0) dd.view) = true then
+      if (decide (dd.depth ≠ rootDepth) && skipEntry cfg ig dd.path (dd.path.getLast?.getD 0) dd.view) = true then
         walkLoop cfg forest m
           (mkIt cfg rd (WdS.pop cfg.followLinks ⟨stack, sp⟩).stack (WdS.pop cfg.followLinks ⟨stack, sp⟩).sp
             (dd.depth + 1) none) ((info.ino, info.ign) :: ig) acc
@@ -271,7 +271,7 @@ theorem walkLoop_dir (stack : List Frame) (sp : List Nat) (dd : Dent) (info : Di
 theorem walkLoop_file (stack : List Frame) (sp : List Nat) (dd : Dent)
     (hdir : dd.dir = none) (m : Nat) (ig : List Anc) (acc : List Out) :
     walkLoop cfg forest (m + 1) (mkIt cfg rd stack sp dd.depth (some (.ok dd))) ig acc =
-      if (decide (dd.depth ≠ 0) && skipEntry cfg ig dd.path (dd.path.getLast?.getD 0) dd.view) = true then
+      if (decide (dd.depth ≠ rootDepth) && skipEntry cfg ig dd.path (dd.path.getLast?.getD 0) dd.view) = true then
         walkLoop cfg forest m (mkIt cfg rd stack sp dd.depth none) ig acc
       else walkLoop cfg forest m (mkIt cfg rd stack sp dd.depth none) ig (.entry dd.path :: acc) := by
   have hev : evNext cfg forest (mkIt cfg rd stack sp dd.depth (some (.ok dd))) =
@@ -330,7 +330,7 @@ theorem simE_gen (pp : Path) (k : Node) (ks : List Node) (below : List Frame) (s
       have hdirstep := fun (st : List Frame) (sp' : List Nat) m =>
         walkLoop_dir cfg forest rd st sp' ⟨pp ++ [k.name], below.length + 1, .dir d via, some d⟩ d rfl m igL acc
       simp only [getLast_snoc] at hdirstep
-      have hne : decide (below.length + 1 ≠ 0) = true := by simp
+      have hne : decide (below.length + 1 ≠ rootDepth) = true := by simp [rootDepth]
       simp only [hne, Bool.true_and] at hdirstep
       cases hsk : skipEntry cfg igL (pp ++ [k.name]) k.name (.dir d via) with
       | true =>
@@ -387,7 +387,7 @@ theorem simE_gen (pp : Path) (k : Node) (ks : List Node) (below : List Frame) (s
       have hst := fun m =>
         walkLoop_file cfg forest rd (⟨pp, ks⟩ :: below) sp ⟨pp ++ [k.name], below.length + 1, .file sz, none⟩ rfl m igL acc
       simp only [getLast_snoc] at hst
-      have hne : decide (below.length + 1 ≠ 0) = true := by simp
+      have hne : decide (below.length + 1 ≠ rootDepth) = true := by simp [rootDepth]
       simp only [hne, Bool.true_and] at hst
       refine ⟨(D - (below.length + 1)) + 1, below.length + 1, igL, Nat.le_refl _, higL, by simp, ?_⟩
       intro m
@@ -400,7 +400,7 @@ theorem simE_gen (pp : Path) (k : Node) (ks : List Node) (below : List Frame) (s
       have hst := fun m =>
         walkLoop_file cfg forest rd (⟨pp, ks⟩ :: below) sp ⟨pp ++ [k.name], below.length + 1, .symlink l, none⟩ rfl m igL acc
       simp only [getLast_snoc] at hst
-      have hne : decide (below.length + 1 ≠ 0) = true := by simp
+      have hne : decide (below.length + 1 ≠ rootDepth) = true := by simp [rootDepth]
       simp only [hne, Bool.true_and] at hst
       refine ⟨(D - (below.length + 1)) + 1, below.length + 1, igL, Nat.le_refl _, higL, by simp, ?_⟩
       intro m
@@ -413,7 +413,7 @@ theorem simE_gen (pp : Path) (k : Node) (ks : List Node) (below : List Frame) (s
       have hst := fun m =>
         walkLoop_file cfg forest rd (⟨pp, ks⟩ :: below) sp ⟨pp ++ [k.name], below.length + 1, .broken, none⟩ rfl m igL acc
       simp only [getLast_snoc] at hst
-      have hne : decide (below.length + 1 ≠ 0) = true := by simp
+      have hne : decide (below.length + 1 ≠ rootDepth) = true := by simp [rootDepth]
       simp only [hne, Bool.true_and] at hst
       refine ⟨(D - (below.length + 1)) + 1, below.length + 1, igL, Nat.le_refl _, higL, by simp, ?_⟩
       intro m
@@ -686,7 +686,7 @@ theorem root_file (cfg : Cfg) (forest : List Node) (r : Node) (hs : stat forest 
   simp only at h1 h2 h3 h4 h5
   subst h1 h4 h5
   simp only [hdp]
-  simp only [ne_eq, not_true_eq_false, decide_false, Bool.false_and, Bool.false_eq_true, if_false]
+  simp only [rootDepth, ne_eq, not_true_eq_false, decide_false, Bool.false_and, Bool.false_eq_true, if_false]
   rw [walkLoop_drain' cfg forest w h2 h3 0 m [] [.entry dd.path], hp]
   rfl
 
@@ -750,7 +750,7 @@ theorem serialEventsRoot_eq (cfg : Cfg) (forest : List Node) (F : Nat) (hF : dir
           (mkIt cfg (if cfg.sameFs then some d.dev else none) [⟨[r.name], d.kids⟩]
             (if cfg.followLinks then [d.ino] else []) 1 none) [(d.ino, d.ign)] [.entry [r.name]] := by
       intro m
-      simp [walkLoop, hev]
+      simp [walkLoop, hev, rootDepth]
     cases hd : depthOk cfg 0 with
     | true =>
       have hK := hJ_serContents cfg forest (if cfg.sameFs then some d.dev else none) F
